@@ -611,103 +611,68 @@ func r075(c *Ctx, r *R) {
 			r.Und("crdt.config:star", tj.Pos(), "toJSONConfig never writes \"*\": TrustAll is not saved")
 		}
 	}
-	// TrustAll := true only under p == "*" ; reset to false before
-	fd, pkg := c.decl(r, "consensus/crdt", "Config.applyJSONConfig")
-	if fd != nil {
-		var sets []struct {
-			val  bool
-			star bool
-			pos  token.Pos
-		}
-		var walk func(n ast.Node, underStar bool)
-		walk = func(n ast.Node, underStar bool) {
-			ast.Inspect(n, func(x ast.Node) bool {
-				switch s := x.(type) {
-				case *ast.IfStmt:
-					star := false
-					if be, ok := s.Cond.(*ast.BinaryExpr); ok && be.Op == token.EQL {
-						if v, ok := constStr(pkg, be.Y); ok && v == "*" {
-							star = true
-						}
-						if v, ok := constStr(pkg, be.X); ok && v == "*" {
-							star = true
-						}
-					}
-					if s.Init != nil {
-						walk(s.Init, underStar)
-					}
-					walk(s.Body, underStar || star)
-					if s.Else != nil {
-						walk(s.Else, underStar)
-					}
-					return false
-				case *ast.AssignStmt:
-					for i, l := range s.Lhs {
-						se, ok := l.(*ast.SelectorExpr)
-						if !ok || se.Sel.Name != "TrustAll" || i >= len(s.Rhs) {
-							continue
-						}
-						v := constVal(pkg, s.Rhs[i])
-						if v == nil {
-							sets = append(sets, struct {
-								val  bool
-								star bool
-								pos  token.Pos
-							}{true, false, s.Pos()})
-							continue
-						}
-						sets = append(sets, struct {
-							val  bool
-							star bool
-							pos  token.Pos
-						}{constant.BoolVal(v), underStar, s.Pos()})
-					}
-				}
-				return true
-			})
-		}
-		walk(fd.Body, false)
-		hasFalse, ok := false, true
-		for _, s := range sets {
-			if !s.val {
-				hasFalse = true
-			} else if !s.star {
-				ok = false
-			}
-		}
-		r.Check(ok && hasFalse && len(sets) >= 2, "crdt.config:TrustAll", fd.Pos(), "loading JSON resets TrustAll and sets it only under the literal \"*\"", "TrustAll can become true from JSON without the \"*\" entry (or is not reset)")
+	// TrustAll while loading JSON (decided on the SSA, so that the value
+	// may travel through a local): every value stored into cfg.TrustAll is
+	// the constant false, or the constant true on a path guarded by a
+	// comparison with the literal "*"; and some store dominates every exit
+	// that can report success (Default() leaves TrustAll = true, so an
+	// input that skips the store - a missing or null trusted_peers key -
+	// would trust everyone without a "*" entry).
+	af := c.fn(r, "consensus/crdt", "Config.applyJSONConfig")
+	if af == nil {
+		return
 	}
-	// the reset is unconditional: Default() leaves TrustAll = true, so a
-	// reset that some JSON input skips (a missing or null trusted_peers
-	// key) trusts everyone without a "*" entry. The store of false must
-	// dominate every exit that can report success.
-	if af := c.fn(r, "consensus/crdt", "Config.applyJSONConfig"); af != nil {
-		var resets []*ssa.Store
-		instrs(af, func(i ssa.Instruction) {
-			st, ok := i.(*ssa.Store)
-			if !ok {
-				return
-			}
-			fa, ok := st.Addr.(*ssa.FieldAddr)
-			if !ok || fieldOfAddr(fa).Name() != "TrustAll" || paramIndex(af, fa.X) != 0 {
-				return
-			}
-			if k, isK := constOf(st.Val); isK && k != nil && !boolVal(k) {
-				resets = append(resets, st)
-			}
-		})
-		for _, lf := range returnLeaves(af, 0) {
-			if call, _ := originCall(lf.Val); call != nil && (nameMatches(callName(call.Common()), "fmt.Errorf") || nameMatches(callName(call.Common()), "errors.New")) {
-				continue // a definite error: the configuration is not used
-			}
-			dom := false
-			for _, st := range resets {
-				if st.Block() == lf.Block || st.Block().Dominates(lf.Block) {
-					dom = true
-				}
-			}
-			r.Check(dom, "crdt.config:TrustAll:reset-unconditional", lf.Pos, "every successful exit of applyJSONConfig is dominated by TrustAll = false", "applyJSONConfig can succeed without having reset TrustAll (true by default): a configuration without a \"*\" entry (missing/null/empty list on that path) trusts every peer")
+	var stores []*ssa.Store
+	instrs(af, func(i ssa.Instruction) {
+		st, ok := i.(*ssa.Store)
+		if !ok {
+			return
 		}
+		fa, ok := st.Addr.(*ssa.FieldAddr)
+		if !ok || fieldOfAddr(fa).Name() != "TrustAll" || paramIndex(af, fa.X) != 0 {
+			return
+		}
+		stores = append(stores, st)
+	})
+	if len(stores) == 0 {
+		r.Bad("crdt.config:TrustAll", af.Pos(), "applyJSONConfig never assigns TrustAll: the trust-all default survives every configuration")
+		return
+	}
+	underStar := func(g Guard) bool {
+		_, k, tme, ok := eqConst(g.Cond)
+		return ok && k.Kind() == constant.String && constant.StringVal(k) == "*" && tme == g.Branch
+	}
+	okVals, nTrue := true, 0
+	why := ""
+	for _, st := range stores {
+		for _, lf := range valueLeaves(st.Val, st.Block()) {
+			k, isK := constOf(lf.Val)
+			switch {
+			case isK && k != nil && !boolVal(k):
+			case isK && k != nil && boolVal(k):
+				nTrue++
+				if !lf.GuardedBy(underStar) && !guardedBy(st.Block(), underStar) {
+					okVals = false
+					why = "true is stored on a path not guarded by a comparison with \"*\" (" + c.P.Pos(st.Pos()) + ")"
+				}
+			default:
+				okVals = false
+				why = "a value of unknown origin is stored (" + c.P.Pos(st.Pos()) + ")"
+			}
+		}
+	}
+	r.Check(okVals && nTrue >= 1, "crdt.config:TrustAll", af.Pos(), "loading JSON stores false into TrustAll, and true only under the literal \"*\"", "TrustAll can become true from JSON without the \"*\" entry, or \"*\" no longer sets it ("+why+")")
+	for _, lf := range returnLeaves(af, 0) {
+		if call, _ := originCall(lf.Val); call != nil && (nameMatches(callName(call.Common()), "fmt.Errorf") || nameMatches(callName(call.Common()), "errors.New")) {
+			continue // a definite error: the configuration is not used
+		}
+		dom := false
+		for _, st := range stores {
+			if st.Block() == lf.Block || st.Block().Dominates(lf.Block) {
+				dom = true
+			}
+		}
+		r.Check(dom, "crdt.config:TrustAll:reset-unconditional", lf.Pos, "every successful exit of applyJSONConfig is dominated by an assignment of TrustAll", "applyJSONConfig can succeed without having assigned TrustAll (true by default): a configuration without a \"*\" entry (missing/null/empty list on that path) trusts every peer")
 	}
 }
 
